@@ -34,7 +34,8 @@ where
 {
     let n = model.len();
     let cap = n + 4;
-    let alphabet = [IOp::Next, IOp::Nth(0), IOp::Nth(1), IOp::Nth(2), IOp::Nth(n + 1)];
+    // (nth(usize::MAX) and nth(usize::MAX - 1) after any prefix: an index computed as position + n must not wrap)
+    let alphabet = [IOp::Next, IOp::Nth(0), IOp::Nth(1), IOp::Nth(2), IOp::Nth(n + 1), IOp::Nth(usize::MAX), IOp::Nth(usize::MAX - 1)];
     let mut traces = 0u64;
     // all op sequences of length 0..=depth, simplest first
     let mut seqs: Vec<Vec<IOp>> = vec![vec![]];
